@@ -1,10 +1,17 @@
 ENGINES = [
+    {'name': 'E2-threads', 'path': 'harness/*_tsan.cpp', 'serves_properties': ['C05', 'C10', 'C11', 'C12'], 'kind_free_text': 'free-running pthreads under gcc -fsanitize=thread (plain data guarded by the ordering under test), seeded jitter at the frigg hook points, offline history checkers; wall-clock watchdog is inconclusive only'},
+    {'name': 'E3-sched', 'path': 'harness/common/sched.hpp', 'serves_properties': ['C05', 'C10', 'C11', 'C12'], 'kind_free_text': 'controlled scheduler: real threads serialized by a baton, context switches only at frg_verif_point sites / SchedMutex operations / policy callbacks; bounded-preemption DFS, PCT, random walk; deadlock and livelock are logical verdicts; ASan+UBSan build'},
+    {'name': 'E4-faults', 'path': 'harness/c01_slab.cpp', 'serves_properties': ['C04'], 'kind_free_text': 'deterministic enumeration of Policy::map failures over fixed seeded histories'},
     {'name': 'E1-seq', 'path': 'harness/', 'serves_properties': ['C01', 'C02', 'C03', 'C06', 'C07', 'C08', 'C09', 'C13', 'C14', 'C15', 'C16', 'C17', 'C18', 'C19', 'C20'],
      'kind_free_text': 'single-threaded model-based / differential workload drivers built with gcc -fsanitize=address,undefined; monitors: reference models, tracked allocator, lifetime-registering element type, guarded buffers, exact-size va_list'},
 ]
 NOTES = 'All checks are runtime monitors over executions of the real headers; verdicts are "held on what was observed". See DESIGN.md.'
 NOT_YET = {}
 CHECK_TEXT = {
+    'C05': {'engine': 'E3+E2', 'technique': 'runtime monitoring: controlled-scheduler exploration (bounded-preemption DFS + PCT) with double-hand-out / pattern / policy-without-lock / deadlock monitors, plus ThreadSanitizer and an offline overlap checker on free-running multi-threaded histories'},
+    'C10': {'engine': 'E3+E2', 'technique': 'runtime monitoring: controlled-scheduler exploration of writer||finder scripts with an interval-based presence oracle, plus ThreadSanitizer on plain node/value fields in free-running runs'},
+    'C11': {'engine': 'E1+E3+E2', 'technique': 'runtime monitoring: event-log oracle (callback once / inside run / grace period / bounded progress) over exhaustive whole-operation sequences and controlled schedules, node freed in its callback under ASan, ThreadSanitizer RCU torture for the happens-before clause'},
+    'C12': {'engine': 'E1+E3+E2', 'technique': 'runtime monitoring: ownership-model monitor over exhaustive guard operation sequences; controlled-scheduler DFS/PCT with mutual-exclusion, ticket-order and hand-over monitors; ThreadSanitizer on a plain counter in the critical section'},
     'C19': {'technique': 'runtime monitoring: byte-for-byte differential monitor against glibc vsnprintf over the full directive grid (arguments through an exact-size va_list), independent spec interpreter for fmt(), chunk-concatenation monitor for stack_buffer_logger, under ASan+UBSan'},
     'C20': {'technique': 'runtime monitoring: ASan+UBSan with exact-size input buffers / option cells / variadic slots (slot count from an independent tokenizer) over bounded-exhaustive and generated inputs to the four parsers; panic-hook stops are accepted outcomes'},
     'C01': {'technique': 'runtime monitoring: shadow-model monitor (mapping registry, live-interval map, header range, alignment, stable size) on every block returned in seeded and bounded-exhaustive histories over 13 policy configurations, under ASan+UBSan'},
